@@ -600,6 +600,7 @@ def gen_body(rng, mod, earlier, sim, mods, rich):
         listed_total = []
         own_type = None
         first_pos = 0
+        src_counter = [0]
         for k in range(nstm):
             items = []
             # a child module may be listed only when it is earlier in the dependency order (a wildcard import of this package imports it)
@@ -611,25 +612,36 @@ def gen_body(rng, mod, earlier, sim, mods, rich):
                     if n.startswith("_") and not want_private:
                         continue
                     items.append(["s", n])
+            if items and rng.random() < 0.2:
+                # a name listed twice (CPython keeps the duplicate; the set of bound names is what matters)
+                items.insert(rng.randint(0, len(items)), list(rng.choice(items)))
             foreign = [e for e in earlier if sim.all.get(tuple(e["path"])) is not None]
             pre = []
-            ftype = None
+            ftypes = set()
+            # 0-3 foreign __all__ lists in ONE statement, in attribute form (x.__all__) and/or name form (a name bound to the list);
+            # the same module may be used twice
+            nforeign = 0
             if foreign and rng.random() < 0.45:
+                nforeign = 1 + (rng.random() < 0.45) + (rng.random() < 0.25)
+            for _j in range(nforeign):
                 tp = tuple(rng.choice(foreign)["path"])
                 ftype = sim.alltype[tp]
+                ftypes.add(ftype)
                 pre.append(["star", list(tp), style()])      # the foreign names must be bound here
                 bind_star(tp)
                 chain = [(tuple(e["path"]), n) for e in earlier for n, v in sim.ns[tuple(e["path"])].items()
                          if v == ("mod", dotted(tp)) and not n.startswith("_")]
+                idx = src_counter[0]
+                src_counter[0] += 1
                 if chain and rng.random() < 0.25:
                     # the module reaches this module through another module's namespace (a re-exported module object)
                     yp, yn = rng.choice(chain)
-                    local = f"w{k}"
+                    local = f"w{idx}"
                     pre.append(["from", list(yp), yn, local, style()])
                     ns[local] = ("mod", dotted(tp))
                     item = ["attr", local, ftype]
                 elif rng.random() < 0.5:
-                    local = f"w{k}"
+                    local = f"w{idx}"
                     if len(tp) > 1 and rng.random() < 0.6:
                         pre.append(["from", list(tp[:-1]), tp[-1], local, style()])
                     else:
@@ -637,24 +649,34 @@ def gen_body(rng, mod, earlier, sim, mods, rich):
                     ns[local] = ("mod", dotted(tp))
                     item = ["attr", local, ftype]
                 else:
-                    local = f"a{k}"
-                    pre.append(["from", list(tp), "__all__", local, style()])
+                    local = f"a{idx}"
+                    chain2 = [(tuple(e["path"]), n) for e in earlier for n, v in sim.ns[tuple(e["path"])].items()
+                              if v == ("all", dotted(tp)) and not n.startswith("_")]
+                    if chain2 and rng.random() < 0.3:
+                        # the list itself is reached through another module's namespace (a re-exported, renamed __all__): finding F11
+                        yp, yn = rng.choice(chain2)
+                        pre.append(["from", list(yp), yn, local, style()])
+                    else:
+                        pre.append(["from", list(tp), "__all__", local, style()])
                     ns[local] = ("all", dotted(tp))
                     item = ["name", local, ftype]
                 items.insert(rng.randint(0, len(items)), item)
                 listed_total += sim.all[tp]
+            # `+` needs operands of one sequence type; starred elements take any
+            uniform = len(ftypes) <= 1
+            ftype = next(iter(ftypes)) if len(ftypes) == 1 else None
             plus_form = {"list": "plus", "tuple": "tplus", None: rng.choice(["plus", "tplus"])}[ftype]
             if k == 0:
-                form = rng.choice(["list", "tuple", plus_form] + (["ann"] if ftype is None else []))
+                form = rng.choice(["list", "tuple"] + ([plus_form] if uniform else []) + (["ann"] if not ftypes else []))
                 own_type = "tuple" if form in ("tuple", "tplus") else "list"
                 st = ["setall", form, items]
                 pos = rng.randint(0, len(body))
                 first_pos = pos + len(pre)
             else:
                 if own_type == "tuple":
-                    form = rng.choice(["tuple"] + (["tplus"] if ftype in (None, "tuple") else []))
+                    form = rng.choice(["tuple"] + (["tplus"] if uniform and ftype in (None, "tuple") else []))
                 else:
-                    form = rng.choice(["list", "tuple", plus_form])
+                    form = rng.choice(["list", "tuple"] + ([plus_form] if uniform else []))
                 st = ["addall", form, items]
                 pos = rng.randint(first_pos + 1, len(body))        # `+=` after the `=`
             listed_total += [i[1] for i in items if i[0] == "s"]
@@ -939,6 +961,13 @@ def all_witnesses():
         _m(["wf10", "s"], True, [["setall", "list", [["s", "h"]]], ["def", "h", "func"]]),
         _m(["wf10", "s", "n1"], False, [["star", ["wf10", "m1"], "rel"], ["import", ["wf10", "m1"], "w2"],
                                         ["setall", "list", [["attr", "w2", "list"]]]])]}
+    # F11: a name bound to another module's __all__ and imported again from the intermediate module: expanded to the intermediate module's exports
+    W["C05-F11"] = {"name": "wf11", "order": ["wf11", "wf11.a", "wf11.b", "wf11.c"], "modules": [
+        _m(["wf11"], True, []),
+        _m(["wf11", "a"], False, [["setall", "list", [["s", "f"]]], ["def", "f", "func"]]),
+        _m(["wf11", "b"], False, [["from", ["wf11", "a"], "__all__", "a0", "rel"], ["def", "g", "func"], ["setall", "list", [["s", "g"]]]]),
+        _m(["wf11", "c"], False, [["star", ["wf11", "a"], "rel"], ["from", ["wf11", "b"], "a0", "a1", "rel"],
+                                  ["setall", "plus", [["name", "a1", "list"], ["s", "h"]]], ["def", "h", "func"]])]}
     return W
 
 
@@ -956,6 +985,19 @@ def has_stmt(pkg, tag):
             return True
         return st[0] == "semi" and any(walk(x) for x in st[1:])
     return any(walk(st) for m in pkg["modules"] for st in m["body"])
+
+
+def renamed_all_sources(pkg):
+    """[module, local]: a name-form source of an __all__ whose binding imports a name other than `__all__` (a renamed list re-exported by an
+    intermediate module).  Python mirror of the Coq predicate `renamed_all_source` (finding F11)."""
+    out = []
+    for m in pkg["modules"]:
+        sts = [st for _, st in stmt_tags({"modules": [m]})]
+        used = {i[1] for st in sts if st[0] in ("setall", "addall", "extall") for i in st[2] if i[0] == "name"}
+        for st in sts:
+            if st[0] == "from" and st[2] != "__all__" and (st[3] or st[2]) in used:
+                out.append([dotted(m["path"]), st[3] or st[2]])
+    return out
 
 
 def f5_signature(x, oracle):
@@ -980,6 +1022,7 @@ def classify(pkg, view, oracle, ml, ms_view, dmi, leak):
     out = []
     same_line = has_stmt(pkg, "semi")
     ext = has_stmt(pkg, "extall")
+    renamed = bool(renamed_all_sources(pkg))
     for x in d:
         key = (x[0], x[1])
         if x[1] == "__all__" or x[2] is None:
@@ -998,6 +1041,8 @@ def classify(pkg, view, oracle, ml, ms_view, dmi, leak):
                 out.append((x, "C05-F6"))
             elif same_line and not dmi:
                 out.append((x, "C05-F4"))
+            elif renamed and not dmi:
+                out.append((x, "C05-F11"))
             else:
                 out.append((x, None))
         else:
@@ -1074,6 +1119,8 @@ def observe_package(ctx, pkg, stream):
             t = "from-rel" if st[4] == "rel" else "from-abs"
             if st[2] == "__all__":
                 t = "from-__all__"
+            elif [dotted(m["path"]), st[3] or st[2]] in renamed_all_sources({"modules": [m]}):
+                t = "from-renamed-__all__"
             if st[3]:
                 t += "-as"
         elif t == "star":
@@ -1081,7 +1128,14 @@ def observe_package(ctx, pkg, stream):
         elif t == "import":
             t = "import-as" if st[2] else "import"
         elif t in ("setall", "addall", "extall"):
-            ctx.observe("all_form", t + ":" + st[1] + ("+foreign" if any(i[0] != "s" for i in st[2]) else ""))
+            nf = sum(1 for i in st[2] if i[0] != "s")
+            ctx.observe("all_form", t + ":" + st[1] + (f"+foreign{nf}" if nf else ""))
+            if nf >= 2:
+                kinds = sorted({i[0] for i in st[2] if i[0] != "s"})
+                ctx.observe("all_multi_source", "+".join(kinds) + (":same-module-twice" if len({i[1] for i in st[2] if i[0] != "s"}) < nf else ""))
+            strs = [i[1] for i in st[2] if i[0] == "s"]
+            if len(set(strs)) < len(strs):
+                ctx.observe("all_duplicate_string", t)
         ctx.observe("stmt", t)
     for m in pkg["modules"]:
         if m["init"] and len(m["path"]) > 0:
@@ -1264,6 +1318,8 @@ def search(ctx):
                     continue
                 if not view["error"] and trig["f7"] and x[2] is not None and x[3] is not None and x[1] != "__all__":
                     continue
+                if not view["error"] and trig["f11"] and (x[1] == "__all__" or x[2] is None or x[3] is None):
+                    continue
                 ctx.property_failure({"package": pkg["name"], "order": pkg["order"], "sources": package_sources(pkg), "abstract": pkg["modules"]},
                                      {"module": x[0], "name": x[1], "griffe": x[2], "cpython": x[3]}, None)
                 return
@@ -1281,7 +1337,7 @@ def py_triggers(pkg):
         st[0] == "from" and st[2] != "__all__" and st[3] and st[3][0] == "w" for m in mods.values() for _, st in stmt_tags({"modules": [m]}))
     # an explicitly imported name may be re-bound by a wildcard import of the same module (replaced alias member: F7)
     f7 = any(stars[p] and any(st[0] in ("from", "import") for _, st in stmt_tags({"modules": [m]})) for p, m in mods.items())
-    return {"f3": f3, "f7": f7, "f8": f8}
+    return {"f3": f3, "f7": f7, "f8": f8, "f11": bool(renamed_all_sources(pkg))}
 
 
 def replay(ctx, data):
